@@ -192,6 +192,8 @@ pub struct World {
     pub size_mix: bool,
     /// every third publish carries a content type and a user property of boundary sizes (see `rich_options`)
     pub rich_pubs: bool,
+    /// every fifth inbound PUBLISH carries the full set of forwardable properties
+    pub rich_inbound: bool,
     /// which publishes (request index modulo 3) carry them
     pub rich_phase: usize,
     /// every second subscribe() carries three topic filters (its SUBACK then has three reason codes, granted and refused mixed)
@@ -205,6 +207,7 @@ pub struct World {
 #[derive(Default, Clone, Debug)]
 pub struct Counters {
     pub sized_inbound: u64,
+    pub rich_inbound: u64,
     pub resent_with_options: u64,
     pub pubs_set_twice: u64,
     pub pubrel_not_found: u64,
@@ -352,6 +355,7 @@ impl World {
             reconnects: 0,
             size_mix: false,
             rich_pubs: false,
+            rich_inbound: true,
             rich_phase: 2,
             multi_filter: false,
             huge_pubs: false,
@@ -412,10 +416,20 @@ impl World {
                     let opt = sp.filters[0].1.clone();
                     sp.filters.push((format!("g/{idx}"), opt.clone()));
                     sp.filters.push((format!("h/{idx}/#"), opt));
+                    sp.user_props = vec![("sk".to_string(), format!("sv{idx}"))];
                 }
                 OpSpec::Subscribe(sp)
             }
-            Kind::Unsub => OpSpec::Unsubscribe(UnsubSpec::simple(&format!("u/{idx}"))),
+            Kind::Unsub => {
+                let mut sp = UnsubSpec::simple(&format!("u/{idx}"));
+                if self.multi_filter && idx % 2 == 0 {
+                    // one unsubscribe() call with three topic filters (its UNSUBACK then has three reason codes) and a user property
+                    sp.filters.push(format!("g/{idx}"));
+                    sp.filters.push(format!("h/{idx}/+"));
+                    sp.user_props = vec![("uk".to_string(), format!("uv{idx}"))];
+                }
+                OpSpec::Unsubscribe(sp)
+            }
             Kind::Ping => OpSpec::Ping,
             Kind::Disc => OpSpec::Disconnect(DiscSpec::default()),
             Kind::PubBig => OpSpec::Publish(PubSpec::simple(1, &format!("o/{idx}"), &Self::big_payload(idx))),
@@ -492,7 +506,7 @@ impl World {
             either: Vec::new(),
             dropped: false,
             holds_slot: false,
-            nfilters: if kind == Kind::Sub && self.multi_filter && idx % 2 == 1 { 3 } else { 1 },
+            nfilters: if self.multi_filter && ((kind == Kind::Sub && idx % 2 == 1) || (kind == Kind::Unsub && idx % 2 == 0)) { 3 } else { 1 },
             expected_items: Vec::new(),
             expected_seq: Vec::new(),
             min_items_after_drop: None,
@@ -783,21 +797,31 @@ impl World {
                 *b = (j as u8).wrapping_mul(31).wrapping_add(k as u8);
             }
         }
+        // every fifth inbound message carries every property a broker may forward with a PUBLISH (but a topic alias, which
+        // the client never allows), wrapped around the subscription identifiers: the stream item must show them unchanged
+        let rich = self.rich_inbound && k % 5 == 2;
+        let (mut pfi, mut mei, mut correlation, mut response_topic, mut content_type, mut user_props) = (None, None, None, None, None, vec![]);
+        if rich {
+            self.counters.rich_inbound += 1;
+            let utf8 = size.is_none();
+            pfi = Some(utf8);
+            mei = Some(1000 + k as u64);
+            correlation = Some(vec![0u8, 0xff, k as u8, 0x80]);
+            response_topic = Some(format!("r/{k}"));
+            content_type = Some(format!("ct/{}", "x".repeat(k % 140)));
+            user_props = vec![("a".to_string(), format!("1-{k}")), ("a".to_string(), "2".to_string()), (String::new(), String::new())];
+            let mut all = vec![Prop::pair("a", &format!("1-{k}")), Prop::str(3, content_type.as_ref().unwrap())];
+            all.append(&mut props);
+            all.push(Prop::bin(9, correlation.as_ref().unwrap()));
+            all.push(Prop::pair("a", "2"));
+            all.push(Prop::str(8, response_topic.as_ref().unwrap()));
+            all.push(Prop::u32(2, 1000 + k as u32));
+            all.push(Prop::byte(1, utf8 as u8));
+            all.push(Prop::pair("", ""));
+            props = all;
+        }
         let p = rc::Publish { dup, qos, retain, topic: topic.clone(), id: if qos > 0 { Some(id) } else { None }, props, payload: payload.clone() };
-        let item = MsgSum {
-            dup,
-            retain,
-            qos,
-            topic,
-            pfi: None,
-            topic_alias: None,
-            mei: None,
-            correlation: None,
-            response_topic: None,
-            content_type: None,
-            payload,
-            user_props: vec![],
-        };
+        let item = MsgSum { dup, retain, qos, topic, pfi, topic_alias: None, mei, correlation, response_topic, content_type, payload, user_props };
         let redelivery = qos == 2 && self.inbound_qos2.contains(&id);
         if redelivery {
             self.counters.redeliveries += 1;
